@@ -1,9 +1,11 @@
 #!/bin/bash
-# Development aid (not part of any registered check): a mirror of /verif + /repo under /var/tmp/mh in
-# which patches are applied and the quick checks run, so that /repo itself is never touched while
-# background runs use it.   usage: tools/mutant_lab.sh setup | run <patch.diff> [ID...] | clean
+# Development aid (not part of any registered check): a mirror of /verif + /repo under $LAB (default
+# /var/tmp/mh) in which patches are applied and the quick checks run, so that /repo itself is never
+# touched while background runs use it.  Several labs can run side by side (LAB=/var/tmp/mh2 ...).
+# usage: tools/mutant_lab.sh setup | sync | run <patch.diff> [ID...] | clean         (TIER=quick|thorough)
 set -u
-LAB=/var/tmp/mh
+LAB=${LAB:-/var/tmp/mh}
+TIER=${TIER:-quick}
 case "${1:-}" in
   setup)
     rm -rf "$LAB"; mkdir -p "$LAB"
@@ -26,10 +28,10 @@ case "${1:-}" in
     git -C "$LAB/repo" checkout -q -- . ; git -C "$LAB/repo" clean -fdq -- src tests
     if ! git -C "$LAB/repo" apply "$patch"; then echo "PATCH DOES NOT APPLY: $patch"; exit 3; fi
     tests=$(cd "$LAB/repo" && cargo nextest run --workspace --no-fail-fast --offline 2>&1 | grep -E "Summary|error(\[|:)" | head -3 | tr '\n' ' ')
-    echo "mutant $(basename "$patch" .diff): repository tests: $tests"
+    echo "mutant $patch: repository tests: $tests"
     flagged=""
     for id in $ids; do
-      out=$(cd "$LAB/verif" && VERIF_REPO="$LAB/repo" ./check "$id" --tier quick 2>&1); code=$?
+      out=$(cd "$LAB/verif" && VERIF_REPO="$LAB/repo" ./check "$id" --tier "$TIER" 2>&1); code=$?
       key=$(echo "$out" | grep -m1 -E "^  C[0-9]+/" | cut -c1-160)
       if [ $code -eq 1 ]; then flagged="$flagged $id"; echo "   $id VIOLATION $key"; elif [ $code -ne 0 ]; then echo "   $id exit=$code $(echo "$out" | grep -m2 MACHINERY | cut -c1-200)"; fi
     done
